@@ -41,6 +41,7 @@ type stats struct {
 	TouchNames map[string]int `json:"touch_names"`
 	RangeSites []string       `json:"map_range_sites"`
 	Globals    []string       `json:"package_level_variables_registered"`
+	GoStmts    int            `json:"go_statements_rewritten"`
 }
 
 func main() {
@@ -365,6 +366,55 @@ func instrumentFile(p *packages.Package, f *ast.File, st *stats) bool {
 		needVsched = true
 		changed = true
 	}
+
+	// 5. go statements: the new goroutine becomes a thread of the controlled scheduler. The function
+	// value and the non-constant arguments are evaluated where the go statement stands, as Go does.
+	goN := 0
+	ast.Inspect(f, func(n ast.Node) bool {
+		var list *[]ast.Stmt
+		switch x := n.(type) {
+		case *ast.BlockStmt:
+			list = &x.List
+		case *ast.CaseClause:
+			list = &x.Body
+		case *ast.CommClause:
+			list = &x.Body
+		}
+		if list == nil {
+			return true
+		}
+		for i, s := range *list {
+			gs, ok := s.(*ast.GoStmt)
+			if !ok {
+				continue
+			}
+			goN++
+			call := gs.Call
+			var pre []ast.Stmt
+			fn := ast.NewIdent(fmt.Sprintf("vsGo%dFn", goN))
+			pre = append(pre, &ast.AssignStmt{Lhs: []ast.Expr{fn}, Tok: token.DEFINE, Rhs: []ast.Expr{call.Fun}})
+			var args []ast.Expr
+			for ai, a := range call.Args {
+				if tv, ok := info.Types[a]; ok && tv.Value != nil {
+					args = append(args, a) // constants need no snapshot (and keep their untyped nature)
+					continue
+				}
+				tmp := ast.NewIdent(fmt.Sprintf("vsGo%dA%d", goN, ai))
+				pre = append(pre, &ast.AssignStmt{Lhs: []ast.Expr{tmp}, Tok: token.DEFINE, Rhs: []ast.Expr{a}})
+				args = append(args, tmp)
+			}
+			inner := &ast.CallExpr{Fun: fn, Args: args, Ellipsis: call.Ellipsis}
+			spawn := &ast.ExprStmt{X: &ast.CallExpr{
+				Fun:  &ast.SelectorExpr{X: ast.NewIdent("vsched_"), Sel: ast.NewIdent("Spawn")},
+				Args: []ast.Expr{&ast.FuncLit{Type: &ast.FuncType{Params: &ast.FieldList{}}, Body: &ast.BlockStmt{List: []ast.Stmt{&ast.ExprStmt{X: inner}}}}},
+			}}
+			(*list)[i] = &ast.BlockStmt{List: append(pre, spawn)}
+			st.GoStmts++
+			needVsched = true
+			changed = true
+		}
+		return true
+	})
 
 	// 4. package-level variables: registered so that every execution can start from their initial values
 	for _, dcl := range f.Decls {
